@@ -121,6 +121,8 @@ func c09Replay(w *mc.W, data json.RawMessage) error {
 		st.resolveOne(cs.Blend[0], cs.Blend[1], cs.Blend[2], cs.Ctx)
 	case "decoder":
 		st.decodeStream(bytesCase{Hex: cs.Hex}.bytes(), "decoder")
+	case "repeat":
+		st.repeats()
 	case "palette-stream":
 		st.paletteStream(bytesCase{Hex: cs.Hex}.bytes())
 	case "palette":
@@ -204,6 +206,9 @@ func (st *c09State) indirect(u int) {
 		st.encodeBatch("creg-ref", cols, -1)
 		cols = cols[:0]
 	}
+	if !st.w.Thorough || u == 0 {
+		st.repeats()
+	}
 	c1s := []int{0x00, 0x7c, 0x7d, 0x7e, 0x7f, 0x80, 0x81, 0xbf, 0xc0, 0xc1, 0xff, 0x30, 0x63, 0x18, 0x90, 0xd0}
 	tFrom, tTo := 0, 256
 	if st.w.Thorough {
@@ -226,6 +231,39 @@ func (st *c09State) indirect(u int) {
 	}
 	if len(cols) > 0 {
 		st.encodeBatch("blend", cols, -1)
+	}
+}
+
+// repeats: the same colour assigned twice in a row to the same register is two assignments
+// (a blend that names its own target register is not even idempotent).
+func (st *c09State) repeats() {
+	w := st.w
+	cols := []ivg.Color{rgba(0x30, 0x66, 0x07, 0x80), rgba(0xff, 0xff, 0xff, 0xff), rgba(0x02, 0x4a, 0x8a, 0x00), ivg.PaletteIndexColor(5), ivg.CRegColor(0), ivg.CRegColor(9),
+		ivg.BlendColor(0x40, 0xc0, 0x85), ivg.BlendColor(0x80, 0x7c, 0xc0), ivg.BlendColor(0xff, 0xc3, 0xc0), ivg.BlendColor(0x11, 0x22, 0x33)}
+	for ci, c := range cols {
+		for adj := uint8(0); adj < 2; adj++ {
+			w.EvalN(1)
+			var e encode.Encoder
+			e.SetCSel(3 * adj) // the blends name CREG[0] and CREG[3]: with ADJ 1 and CSEL 3... any register will do
+			e.SetCReg(adj, false, c)
+			e.SetCReg(adj, false, c)
+			out, err := e.Bytes()
+			var rd rec.Dest
+			cs := c09Case{Route: "repeat", Pos: ci, Len: int(adj)}
+			if err != nil || decode.Decode(&rd, out) != nil {
+				w.Fail("repeat:error", fmt.Sprintf("%s twice: Bytes err %v, stream %x", rec.ColorString(c), err, out), cs)
+				continue
+			}
+			n := 0
+			for i := range rd.Calls {
+				if rd.Calls[i].M == rec.MSetCReg && rd.Calls[i].C == c && rd.Calls[i].Adj == adj {
+					n++
+				}
+			}
+			if n != 2 {
+				w.Fail("repeat:dropped", fmt.Sprintf("SetCReg(%d,false,%s) twice in a row decodes to %s", adj, rec.ColorString(c), rec.CallsString(rd.Calls)), cs)
+			}
+		}
 	}
 }
 
